@@ -225,6 +225,9 @@ def panic_line(path):
     return found
 
 
+plan.panic_line = panic_line
+
+
 def merge(total, s):
     for k in ("behaviours", "steps", "completed", "desynced", "nviol", "distinct"):
         total[k] = total.get(k, 0) + s.get(k, 0)
@@ -347,6 +350,11 @@ def validate_trace(trace_path, cfg, module, scratch, timeout=900):
     shutil.rmtree(d, ignore_errors=True)
     if "Invariant NotAccepted is violated" in out:
         return True, hw, states
+    if re.search(r"Attempted to (check equality of|compare) ", out) and "OrdaReplicaTrace" in module:
+        # a logged value has another SHAPE than the specification's (a value record against the marker of an absent entry,
+        # say): TLC's equality is an evaluation error there instead of FALSE. Values of different shapes are different:
+        # the event at the high-water mark is one the specification does not allow.
+        return False, hw, states
     if "Model checking completed. No error has been found" in out:
         return False, hw, states
     raise Infra("TLC trace validation did not finish: " + out[-1500:])
@@ -520,7 +528,12 @@ def main():
             if classes[cls] > 2:      # keep the output readable: at most two replays per class of failure
                 confirmed += 1
                 continue
-            if not confirm(v, scratch):
+            try:
+                reproduced = confirm(v, scratch)
+            except Infra as ex:
+                print("confirmation could not run: %s" % str(ex)[:300])
+                reproduced = False
+            if not reproduced:
                 print("UNCONFIRMED (not reproduced in a fresh worker): %s" % v.get("why"))
                 os.makedirs(os.path.join(EVID, "unconfirmed"), exist_ok=True)
                 json.dump(v, open(os.path.join(EVID, "unconfirmed", "%s-%s.json" % (prop, v.get("hash", "x"))), "w"), indent=1)
